@@ -1535,3 +1535,273 @@ Proof.
     exists R. cbn [n_chan n_emap n_ptx]. rewrite Hch, Hs. cbn [sink_ptx].
     split; [|split; [|split; [|split]]]; auto. constructor.
 Qed.
+
+Notation RUN := (run_from E ByNet false max aptx vis pol).
+Notation OKRUN := (ok_run E ByNet false max aptx vis pol).
+Notation FRESHD := (fresh E ByNet false max aptx vis pol).
+
+Lemma inv_state0 : Inv (state0 E).
+Proof. split; [apply wf_nil | split; [reflexivity | discriminate]]. Qed.
+
+Lemma run_inv : forall ls s, Inv s -> OKRUN s ls -> Inv (RUN s ls).
+Proof.
+  induction ls as [|l ls IH]; intros s Hi Hok; cbn [run_from fold_left]; auto.
+  destruct Hok as [Hl Hrest]. apply IH; auto. apply step_inv; auto.
+Qed.
+
+Lemma fresh_closed : forall s, Inv s -> forall k, kfind k (FRESHD s) = FRESH (s_rib s) k.
+Proof.
+  intros s [Hwf [Hfl _]] k. unfold fresh. rewrite Hfl.
+  destruct (dump_ok (s_rib s) Hwf) as [_ D2]. specialize (D2 k). unfold T in D2.
+  rewrite pview_empty in D2. exact D2.
+Qed.
+
+Lemma pview_nil : forall (p : ptx E) k, t_reach p = [] -> t_unreach p = [] -> pview E p k = None.
+Proof. intros p k H1 H2. unfold pview. rewrite H1, H2. reflexivity. Qed.
+
+(* T2 *)
+Lemma quiescent_eq : forall s, Inv s -> established E s -> quiescent E s ->
+  same_routes E (view E s) (FRESHD s).
+Proof.
+  intros s Hinv Hest [Q1 [Q2 [Q3 Q4]]] k. rewrite (fresh_closed s Hinv).
+  destruct Hinv as [Hwf [Hfl Hn]]. destruct (Hn Hest) as [L [H1 [H2 [H3 [H4 H5]]]]].
+  rewrite Q1 in H2.
+  destruct (chain_nil_transfer L _ _ _ _ H2 H1 H3 H4) as [_ [_ G3]].
+  specialize (G3 k). unfold T in G3. rewrite pview_nil in G3 by auto.
+  unfold basef in G3. rewrite Q2 in G3. unfold view. exact G3.
+Qed.
+
+(* T3 *)
+Lemma no_lost : forall s, Inv s -> established E s -> forall k e,
+  kfind k (view E s) = Some e -> kfind k (FRESHD s) = None ->
+  withdrawal_pending E s k \/ change_undelivered E s k.
+Proof.
+  intros s Hinv Hest k e Hv Hf. rewrite (fresh_closed s Hinv) in Hf.
+  destruct Hinv as [Hwf [Hfl Hn]]. destruct (Hn Hest) as [L [H1 [H2 [H3 [H4 H5]]]]].
+  destruct (existsb (fun c => c_net c =? fst k) (n_chan (s_nbr s))) eqn:Hex.
+  - right. apply existsb_exists in Hex as [c [Hc Hk]]. apply N.eqb_eq in Hk. exists c; auto.
+  - left. assert (Hno : forall c, In c (n_chan (s_nbr s)) -> c_net c <> fst k).
+    { intros c Hc He. assert (existsb (fun c => c_net c =? fst k) (n_chan (s_nbr s)) = true).
+      { apply existsb_exists. exists c; split; auto. now apply N.eqb_eq. }
+      congruence. }
+    pose proof (chain_fresh_other L _ _ k H2 H1 Hno) as Hfr. rewrite Hf in Hfr.
+    specialize (H4 k). rewrite <- Hfr in H4. unfold T in H4.
+    unfold withdrawal_pending, drained_unreach.
+    destruct (pview E (n_ptx (s_nbr s)) k) as [[e'|]|] eqn:Hp.
+    + discriminate.
+    + unfold pview in Hp. destruct (kfind k (rev (t_reach (n_ptx (s_nbr s))))); [discriminate|].
+      destruct (memK k (map fst (t_unreach (n_ptx (s_nbr s))))) eqn:Hm; [|discriminate].
+      apply memK_In in Hm. apply in_map_iff in Hm as [[k' nn] [Hk' Hin]]. cbn [fst] in Hk'; subst k'.
+      apply in_map_iff. exists (k, nn). split; auto. cbn [fst snd].
+      destruct H5 as [_ Hc2]. rewrite (Hc2 _ _ Hin). destruct k; reflexivity.
+    + unfold basef in H4. rewrite mirror_reach_lookup in H4. unfold view in Hv. rewrite Hv in H4.
+      destruct (kfind k (rev (n_buf (s_nbr s)))); discriminate.
+Qed.
+
+End Inv.
+
+(* ------------------------------------------------------------ final statements *)
+(* For every payload type, send-max, visibility filter and export policy; the model is
+   the code after the two fix commits (ByNet keying, unlimited snapshot) with
+   addpath_tx = (effective_max > 1), which is what the FSM negotiates (property C16). *)
+Definition MAXOK (max : N) : bool := negb (max =? 1).
+
+Theorem C01_export_inv_preserved :
+  forall (E : Type) (max : N) (vis : path -> bool) (pol : bool -> N -> path -> option E)
+         (ls : list label),
+    ok_run E ByNet false max (MAXOK max) vis pol (state0 E) ls ->
+    Inv E max vis pol (run E ByNet false max (MAXOK max) vis pol ls).
+Proof. intros. unfold run. apply run_inv; auto. apply inv_state0. Qed.
+
+Theorem C01_quiescent_view_eq_fresh_outside_known :
+  forall (E : Type) (max : N) (vis : path -> bool) (pol : bool -> N -> path -> option E)
+         (ls : list label),
+    truthful_run E ByNet false max (MAXOK max) vis pol (state0 E) ls ->
+    ~ Known_C01_llgr ls ->
+    ~ Known_C01_refresh_race E ByNet false max (MAXOK max) vis pol (state0 E) ls ->
+    let s := run E ByNet false max (MAXOK max) vis pol ls in
+    established E s -> quiescent E s ->
+    same_routes E (view E s) (fresh E ByNet false max (MAXOK max) vis pol s).
+Proof.
+  intros E max vis pol ls Ht Hl Hr s He Hq. apply quiescent_eq; auto.
+  apply C01_export_inv_preserved.
+  clear s He Hq. revert Ht Hl Hr. generalize (state0 E).
+  induction ls as [|l ls IH]; intros s0 Ht Hl Hr; cbn [ok_run]; auto.
+  cbn [truthful_run Known_C01_llgr Known_C01_refresh_race] in *.
+  destruct Ht as [Ht1 Ht2]. split.
+  - split; [auto|split]; tauto.
+  - apply IH; tauto.
+Qed.
+
+Theorem C01_no_lost_withdrawal_outside_known :
+  forall (E : Type) (max : N) (vis : path -> bool) (pol : bool -> N -> path -> option E)
+         (ls : list label),
+    truthful_run E ByNet false max (MAXOK max) vis pol (state0 E) ls ->
+    ~ Known_C01_llgr ls ->
+    ~ Known_C01_refresh_race E ByNet false max (MAXOK max) vis pol (state0 E) ls ->
+    let s := run E ByNet false max (MAXOK max) vis pol ls in
+    established E s ->
+    forall k e, kfind k (view E s) = Some e ->
+                kfind k (fresh E ByNet false max (MAXOK max) vis pol s) = None ->
+                withdrawal_pending E s k \/ change_undelivered E s k.
+Proof.
+  intros E max vis pol ls Ht Hl Hr s He k e Hv Hf. eapply no_lost; eauto.
+  apply C01_export_inv_preserved.
+  clear s He Hv Hf. revert Ht Hl Hr. generalize (state0 E).
+  induction ls as [|l ls IH]; intros s0 Ht Hl Hr; cbn [ok_run]; auto.
+  cbn [truthful_run Known_C01_llgr Known_C01_refresh_race] in *.
+  destruct Ht as [Ht1 Ht2]. split.
+  - split; [auto|split]; tauto.
+  - apply IH; tauto.
+Qed.
+
+(* the model's Register dump is the closed form of the export rules *)
+Theorem C01_fresh_is_export_rules :
+  forall (E : Type) (max : N) (vis : path -> bool) (pol : bool -> N -> path -> option E)
+         (ls : list label),
+    ok_run E ByNet false max (MAXOK max) vis pol (state0 E) ls ->
+    let s := run E ByNet false max (MAXOK max) vis pol ls in
+    forall k, kfind k (fresh E ByNet false max (MAXOK max) vis pol s)
+              = fresh_at E max vis pol (s_rib s) k.
+Proof.
+  intros E max vis pol ls Hok s k. apply fresh_closed. apply C01_export_inv_preserved; auto.
+Qed.
+
+(* ------------------------------------------------------------ witnesses *)
+(* Concrete instance used by the correspondence cases (Model/ExportTx.v, cfg). *)
+Definition P (pid src tok : N) : path := {| p_pid := pid; p_src := src; p_tok := tok |}.
+
+Definition crun (g : cfg) (ls : list label) : state CE :=
+  run CE (g_keying g) (g_limited g) (g_max g) (g_aptx g) (cvis g) (cpol g) ls.
+Definition cfresh (g : cfg) (s : state CE) : list (key * CE) :=
+  fresh CE (g_keying g) (g_limited g) (g_max g) (g_aptx g) (cvis g) (cpol g) s.
+
+Definition G (k : keying) (lim : bool) (max : N) (hidden : list N) : cfg :=
+  {| g_keying := k; g_limited := lim; g_max := max; g_aptx := negb (max =? 1);
+     g_hidden := hidden; g_rej := [] |}.
+
+(* (a) the code before fix 84b466b (PendingTx keyed by dest_id): prefix 1 is advertised,
+   removed, and prefix 0 is created and takes the freed dest_id 0 before the flush *)
+Definition w_idreuse : list label :=
+  [RibSet 1 true true None [P 1 0 2]; Register; RibFree 1 true;
+   RibSet 0 true true None [P 1 0 2]; Deliver; Deliver; Flush].
+
+Lemma C01_no_lost_withdrawal_refuted_by_id_keying :
+  let g := G ById false 1 [] in
+  let s := crun g w_idreuse in
+  established CE s /\ quiescent CE s /\
+  exists k e, kfind k (view CE s) = Some e /\ kfind k (cfresh g s) = None /\
+              ~ withdrawal_pending CE s k /\ ~ change_undelivered CE s k.
+Proof.
+  cbv zeta. split; [vm_compute; reflexivity|]. split; [vm_compute; repeat split; reflexivity|].
+  exists (1, 0), (0, 2, 0). split; [vm_compute; reflexivity|]. split; [vm_compute; reflexivity|].
+  split.
+  - vm_compute. tauto.
+  - intros [c [Hc _]]. vm_compute in Hc. exact Hc.
+Qed.
+
+(* the same history on the fixed code: the withdrawal goes out *)
+Example C01_idreuse_fixed :
+  let g := G ByNet false 1 [] in
+  let s := crun g w_idreuse in
+  established CE s /\ quiescent CE s /\ view CE s = [((0, 0), (0, 2, 0))] /\
+  cfresh g s = [((0, 0), (0, 2, 0))].
+Proof. cbv zeta. repeat split; vm_compute; reflexivity. Qed.
+
+(* (b) the code before fix b76cfd5 (dump truncated before the visibility filters):
+   send-max 2, the best of three candidates is invisible to the neighbour *)
+Definition w_limited : list label :=
+  [Register; RibSet 0 true true None [P 1 0 1]; RibSet 0 false true None [P 1 0 1; P 2 1 2];
+   RibSet 0 false true None [P 1 0 1; P 3 2 1; P 2 1 2]; Deliver; Deliver; Deliver; Flush].
+
+Lemma C01_quiescent_view_eq_fresh_refuted_truncated_dump :
+  let g := G ByNet true 2 [0] in
+  let s := crun g w_limited in
+  established CE s /\ quiescent CE s /\ ~ Known_C01_llgr w_limited /\
+  exists k, kfind k (view CE s) <> kfind k (cfresh g s).
+Proof.
+  cbv zeta. split; [vm_compute; reflexivity|]. split; [vm_compute; repeat split; reflexivity|].
+  split.
+  - cbn. intros H. repeat (destruct H as [[? H]|H]; [discriminate|]). exact H.
+  - exists (0, 2). vm_compute. discriminate.
+Qed.
+
+(* (c) open finding C01-llgr-stale-not-resent, on the fixed code *)
+Definition w_llgr : list label :=
+  [RibSet 0 true true None [P 1 2 2]; Register; Flush; LlgrFlip 2 true;
+   RibSet 0 false true None [P 1 2 2]; Deliver; Flush].
+
+Lemma C01_quiescent_view_eq_fresh_refuted_llgr :
+  let g := G ByNet false 1 [] in
+  let s := crun g w_llgr in
+  Known_C01_llgr w_llgr /\ established CE s /\ quiescent CE s /\
+  exists k, kfind k (view CE s) <> kfind k (cfresh g s).
+Proof.
+  cbv zeta. split.
+  - cbn. right; right; right; left. exists 2; reflexivity.
+  - split; [vm_compute; reflexivity|]. split; [vm_compute; repeat split; reflexivity|].
+    exists (0, 0). vm_compute. discriminate.
+Qed.
+
+(* (d) open finding C01-refresh-race, on the fixed code: the refresh runs while the removal
+   of prefix 2 (dest_id 0) is queued and dest_id 0 already names prefix 1 *)
+Definition w_race : list label :=
+  [Register; RibSet 2 true true None [P 1 0 0]; Deliver; RibFree 2 true;
+   RibSet 1 true true None [P 1 1 2]; Flush; Refresh; Deliver; Deliver; Flush].
+
+Lemma C01_no_lost_withdrawal_refuted_refresh_race :
+  let g := G ByNet false 2 [1] in
+  let s := crun g w_race in
+  Known_C01_refresh_race CE ByNet false 2 true (cvis g) (cpol g) (state0 CE) w_race /\
+  established CE s /\ quiescent CE s /\
+  exists k e, kfind k (view CE s) = Some e /\ kfind k (cfresh g s) = None /\
+              ~ withdrawal_pending CE s k /\ ~ change_undelivered CE s k.
+Proof.
+  cbv zeta. split.
+  - cbn [Known_C01_refresh_race w_race]. do 6 right. left. split; [reflexivity|].
+    vm_compute. discriminate.
+  - split; [vm_compute; reflexivity|]. split; [vm_compute; repeat split; reflexivity|].
+    exists (2, 1), (0, 0, 0). split; [vm_compute; reflexivity|]. split; [vm_compute; reflexivity|].
+    split.
+    + vm_compute. tauto.
+    + intros [c [Hc _]]. vm_compute in Hc. exact Hc.
+Qed.
+
+(* ------------------------------------------------------------ non-vacuity *)
+(* A history that satisfies every hypothesis of the theorems (truthful changes, no LLGR
+   flip, refresh only with an empty channel), ends established and quiescent with a
+   non-empty view, and exercises id recycling, a replaced path and a refresh. *)
+Definition w_ok : list label :=
+  [RibSet 1 true true None [P 1 0 2]; Register; RibFree 1 true;
+   RibSet 0 true true None [P 1 0 2]; RibSet 0 false true None [P 1 0 2; P 2 1 3];
+   RibSet 0 true true (Some 1) [P 1 0 1; P 2 1 3];
+   Deliver; Deliver; Deliver; Deliver; Refresh; Flush].
+
+Example C01_hypotheses_satisfiable :
+  let max := 2 in
+  let vis := cvis (G ByNet false max []) in
+  let pol := cpol (G ByNet false max []) in
+  truthful_run CE ByNet false max (MAXOK max) vis pol (state0 CE) w_ok /\
+  ~ Known_C01_llgr w_ok /\
+  ~ Known_C01_refresh_race CE ByNet false max (MAXOK max) vis pol (state0 CE) w_ok /\
+  let s := run CE ByNet false max (MAXOK max) vis pol w_ok in
+  established CE s /\ quiescent CE s /\
+  view CE s = [((0, 2), (1, 3, 0)); ((0, 1), (0, 1, 0))].
+Proof.
+  cbv zeta. split; [|split; [|split; [|split; [|split]]]].
+  - cbn [truthful_run w_ok]. repeat split; try discriminate; try exact I.
+    all: vm_compute.
+    all: try (repeat constructor; cbn; intuition discriminate).
+    all: intros x x0 Hx Hx0 He;
+         repeat (destruct Hx as [Hx|Hx]; [subst x|]); try contradiction;
+         repeat (destruct Hx0 as [Hx0|Hx0]; [subst x0|]); try contradiction;
+         cbn in He; try discriminate; auto.
+  - cbn. intros H. repeat (destruct H as [[? H]|H]; [discriminate|]). exact H.
+  - cbn [Known_C01_refresh_race w_ok]. intros H.
+    repeat (destruct H as [[H _]|H]; [discriminate|]).
+    destruct H as [[_ H]|H]; [apply H; vm_compute; reflexivity|].
+    repeat (destruct H as [[H _]|H]; [discriminate|]). exact H.
+  - vm_compute; reflexivity.
+  - vm_compute; repeat split; reflexivity.
+  - vm_compute; reflexivity.
+Qed.
